@@ -5,9 +5,12 @@ ROOT = os.path.dirname(os.path.dirname(os.path.abspath(__file__)))
 props = [json.loads(l) for l in open(os.path.join(ROOT, 'properties.jsonl'))]
 TECH = ('contract-based deductive verification: sidecar contracts on the real '
         'functions, VCs generated from the current source AST by pvc and '
-        'discharged by z3 (cvc5 for strings), counterexamples replayed natively')
+        'discharged by a solver portfolio (z3 5.1 in process, z3 4.8.12 and cvc5 1.0.3 on the SMT-LIB dump), '
+        'counterexamples replayed natively; shared helpers are under contract in every property that '
+        'depends on them (contracts/helpers.py); code outside the modelled subset is checked by a labelled '
+        'bounded native stand-in, never counted as proved')
 BASE_NOTE = ('floats = mathematical reals, ints unbounded; pvc AST-to-term '
-             'translation (cross-checked against CPython every run); z3/cvc5; '
+             'translation (cross-checked against CPython every run); unsat of z3 5.1, z3 4.8.12 or cvc5 1.0.3 trusted; '
              'assumed contracts of external numerical routines as listed in the '
              'evidence file trusted_base')
 BUILT = {
@@ -83,7 +86,8 @@ BUILT = {
         'reaction value / norm factor (x R T with units); the reported stable phase at every grid point has the lowest tabulated energy, '
         'for 1-D and 2-D scans, and the two agree; Reactions.get_E_span equals highest - lowest state energy plus the overall reaction '
         'energy when the highest state precedes the lowest.',
-   note=BASE_NOTE + '; shapes enumerated (1-3 reactions x 1-3 grid values per axis; 1-3 step sequences); np.nanargmin/argmin/argmax first-best semantics'),
+   note=BASE_NOTE + '; shapes enumerated (1-3 reactions x 1-3 grid values per axis; 1-3 step sequences); np.nanargmin/argmin/argmax first-best semantics; '
+        'the energy span evaluated through the network graph (networkx, outside the modelled subset) only by a labelled bounded script'),
  'C10': dict(level='proof', sec='4/C10',
    text='get_descriptors / get_descriptors_matrix build the composition matrix; fit_HoRT_offset hands lstsq exactly that matrix and '
         'HoRT_dft - HoRT_exp, so (with the normal equations as the assumed lstsq contract) the residual is orthogonal to the composition '
